@@ -415,7 +415,12 @@ class World:
         # expectation carried over from an earlier step (inverse pairs)
         if "same_answer_as" in step and step["same_answer_as"] in self.answers:
             prev = self.answers[step["same_answer_as"]]
-            if prev is not None and prev[0] == "bool" and prev[1] != ans[1]:
+            big = max([0.0] + [abs(float(c)) for o in objs for c in kernel.coords_of(o.V)])
+            if big > 1e4 and not step.get("force_expect"):
+                # the library compares with absolute tolerances (1e-9 on points, 1e-6 on areas):
+                # beyond this size float rounding alone exceeds them (KF3)
+                self.stats.inc("probe:inverse_pair_skipped_large_coordinates")
+            elif prev is not None and prev[0] == "bool" and prev[1] != ans[1]:
                 raise Violation("inverse-pair-equality", "C09", idx,
                                 f"{op} answered {ans[2]!r}; before the transformation and its inverse "
                                 f"it answered {prev[2]!r}")
@@ -603,7 +608,9 @@ class World:
             if exact and good and not isinstance(a.V, str) and not isinstance(b.V, str):
                 exact = kernel.crossings_max_denominator(a.V, b.V) <= 10**9
             binary_t2 = exact and good
-            if good and not exact and T2_FLOAT_BINARY and tol is not None:
+            # coincident float boundaries are a degenerate contact (every edge overlaps an edge
+            # of the other operand up to rounding noise): general position only for non-exact data
+            if good and not exact and pos != "identical" and T2_FLOAT_BINARY and tol is not None:
                 # float polygons (and, when enabled, curved boundaries): compared with the
                 # tolerances of DESIGN 3.1 instead of exactly
                 if not tol.curved or T2_CURVED_BINARY:
@@ -707,7 +714,7 @@ def _ansstr(ans):
 
 
 def _argstr(step):
-    keys = [k for k in step if k not in ("op", "a", "b", "dst", "t1", "t2", "repeat", "drop", "same_answer_as", "needs", "expect")]
+    keys = [k for k in step if k not in ("op", "a", "b", "dst", "t1", "t2", "repeat", "drop", "same_answer_as", "needs", "expect", "force_expect", "force_t2")]
     return "(" + ", ".join(f"{k}={_argval(step[k])}" for k in keys) + ")"
 
 
